@@ -585,6 +585,7 @@ for _extra in ("c12_extra_fixes.json",):
 fix("C12j", "fix: buffer every input of an eternal variable in one entry, whatever period key it is given under")
 fix("C07d", "fix: as-of-date indexing of a several-row vector reads each row, not the first one (VectorialAsofDateParameterNodeAtInstant.__getitem__)")
 fix("C13-disk", "fix: give the clone of a disk-backed simulation its own temporary directory and its own copies of the stored files (Simulation.clone, Holder.clone)")
+fix("C17-proxy-keys", "fix: keep the state of the tracing parameter proxy in private attributes, so that parameters called tracer or parameter_node_at_instant are not shadowed when tracing is on")
 fix("C12-errclass-axes", "fix: refuse an axis over an unknown variable or an unreadable period with a situation error")
 
 
